@@ -62,32 +62,74 @@ func unspill(v ssa.Value) ssa.Value {
 
 func ruleDockerMatch(r *Run) {
 	p := r.P
-	dl := modPath + "/" + dockerlogPkg
+	T := p.NamedType(logqlPkg, "BinOp")
+	consts := enumConstants(T)
+	// the function that decides one matcher against one label value: `match`, or whatever function of
+	// containerLabels.Match's group dispatches on the matcher's operator
 	fn := p.Func(dockerlogPkg, "match")
+	mfAnchor := p.Method(dockerlogPkg, "containerLabels", "Match")
+	if fn == nil && mfAnchor != nil {
+		for _, gf := range funcGroup(mfAnchor) {
+			if gf != mfAnchor && pickTag(gf, T, consts["OpEq"]) != nil && fn == nil {
+				fn = gf
+			}
+		}
+	}
 	anchor := r.Ob("ANCHOR", "dockerlog.match", "anchor function resolves")
 	anchor.Trivial = true
-	if fn == nil || len(fn.Params) != 2 {
+	if fn == nil {
 		anchor.Fail("-", "function not found")
 		return
 	}
 	anchor.OK("resolved").At(r.pos(fn.Pos()))
-	T := p.NamedType(logqlPkg, "BinOp")
-	consts := enumConstants(T)
 	tag := pickTag(fn, T, consts["OpEq"])
 	if tag == nil {
 		r.Ob("CH-POL", "dockerlog.match", "dispatch on the matcher operator").Undecide(r.pos(fn.Pos()), "no dispatch on m.Op found")
 		return
 	}
-	m, s := fn.Params[0], fn.Params[1]
+	// the matcher parameter and the label value under test: a string parameter, or the value looked up
+	// in the label set by the matcher's label inside the function
+	var m, s ssa.Value
+	var innerLookup *ssa.Lookup
+	for _, prm := range fn.Params {
+		if typeKey(prm.Type()) == "LabelMatcher" {
+			m = prm
+		} else if isStringType(prm.Type()) {
+			s = prm
+		}
+	}
+	if s == nil {
+		allInstrs(fn, func(in ssa.Instruction) {
+			if lk, ok := in.(*ssa.Lookup); ok {
+				if mt, ok := lk.X.Type().Underlying().(*types.Map); ok && isStringType(mt.Elem()) {
+					innerLookup = lk
+					s = lk
+					if lk.CommaOk {
+						for _, ref := range *lk.Referrers() {
+							if e, ok := ref.(*ssa.Extract); ok && e.Index == 0 {
+								s = e
+							}
+						}
+					}
+				}
+			}
+		})
+	}
+	if m == nil || s == nil {
+		r.Ob("CH-POL", "dockerlog.match", "dispatch on the matcher operator").Undecide(r.pos(fn.Pos()), "matcher parameter / label value under test not identified")
+		return
+	}
 	// values are resolved on the path: the comparison may sit in a helper or in a
 	// function taken from a table, whose parameters are bound to match's
 	var res func(v ssa.Value) ssa.Value
+	var evalBool func(v ssa.Value) (bool, bool)
 	isMField := func(v ssa.Value, name string) bool {
 		f, base, ok := loadOfField(v)
-		return ok && f == name && (base == ssa.Value(m) || spillParam(base) == ssa.Value(m) || res(spillParam(base)) == ssa.Value(m))
+		return ok && f == name && (base == m || spillParam(base) == m || res(spillParam(base)) == m)
 	}
-	isS := func(v ssa.Value) bool { return v == ssa.Value(s) || res(v) == ssa.Value(s) }
-	classify := func(v ssa.Value) string {
+	isS := func(v ssa.Value) bool { return v == s || unspill(v) == s || res(v) == s }
+	var classify func(v ssa.Value) string
+	classify = func(v ssa.Value) string {
 		neg := false
 		if u, ok := v.(*ssa.UnOp); ok && u.Op == token.NOT {
 			neg, v = true, u.X
@@ -101,6 +143,23 @@ func ruleDockerMatch(r *Run) {
 					out = "eq"
 				case token.NEQ:
 					out = "not eq"
+				}
+			} else if x.Op == token.EQL || x.Op == token.NEQ {
+				// boolean equivalence with a side the path decides: (value == m.Value) == (m.Op == OpEq)
+				for _, pair := range [][2]ssa.Value{{x.X, x.Y}, {x.Y, x.X}} {
+					if b, known := evalBool(pair[1]); known {
+						inner := classify(pair[0])
+						flip := (x.Op == token.EQL) != b
+						if flip {
+							if strings.HasPrefix(inner, "not ") {
+								inner = strings.TrimPrefix(inner, "not ")
+							} else {
+								inner = "not " + inner
+							}
+						}
+						out = inner
+						break
+					}
 				}
 			}
 		case *ssa.Call:
@@ -148,6 +207,13 @@ func ruleDockerMatch(r *Run) {
 			}
 			w, st := cr.W, e.State
 			res = func(v ssa.Value) ssa.Value { return unspill(w.evalVal(st, unspill(v)).V) }
+			evalBool = func(v ssa.Value) (bool, bool) {
+				c, ok := w.eval(st, v)
+				if !ok || c.Kind() != constant.Bool {
+					return false, false
+				}
+				return constant.BoolVal(c), true
+			}
 			set[classify(e.Results[0].V)] = true
 		}
 		got := joinSet(set)
@@ -222,23 +288,28 @@ func ruleDockerMatch(r *Run) {
 		return
 	}
 	good := true
-	// checkValueArg: the value handed to match is labels[matcher.Label] of the given label set, looked up
-	// plainly (a missing label reads as "")
-	checkValueArg := func(matchCall *ssa.Call, recv ssa.Value) {
-		val := unspill(matchCall.Call.Args[1])
-		var lk *ssa.Lookup
-		switch x := val.(type) {
-		case *ssa.Lookup:
-			lk = x
-		case *ssa.Extract:
-			lk, _ = x.Tuple.(*ssa.Lookup)
+	mgrp := funcGroup(mf)
+	recvAlias := map[ssa.Value]bool{} // receivers of predicates that are bound to this label set (method values)
+	recvIs := func(v ssa.Value) bool {
+		v = stripTypeOnly(v)
+		if recvAlias[v] || recvAlias[spillParam(v)] {
+			return true
 		}
+		if fv, ok := v.(*ssa.FreeVar); ok {
+			if b := freeVarBinding(fv); b != nil {
+				v = b
+			}
+		}
+		return v == ssa.Value(mf.Params[0]) || spillParam(v) == ssa.Value(mf.Params[0]) || originValueIn(v, mgrp) == ssa.Value(mf.Params[0]) || originValueIn(spillParam(v), mgrp) == ssa.Value(mf.Params[0])
+	}
+	// the label value handed to the deciding function: labels[matcher.Label] of this label set, looked up plainly
+	checkLookup := func(lk *ssa.Lookup, at token.Pos) {
 		if lk == nil {
 			good = false
-			om.Fail(r.pos(matchCall.Pos()), "match is applied to %s, not to the container's label value", describe(val, 0))
+			om.Fail(r.pos(at), "the matcher is not applied to a value looked up in the container's labels")
 			return
 		}
-		if f, base, ok := loadOfField(lk.X); !ok || f != "labels" || !(base == recv || spillParam(base) == recv) {
+		if f, base, ok := loadOfField(lk.X); !ok || f != "labels" || !recvIs(base) {
 			good = false
 			om.Fail(r.pos(lk.Pos()), "label value is looked up in %s, not in the container's labels", describe(lk.X, 0))
 		}
@@ -257,6 +328,74 @@ func ruleDockerMatch(r *Run) {
 			}
 		}
 	}
+	lookupOf := func(v ssa.Value) *ssa.Lookup {
+		switch x := unspill(v).(type) {
+		case *ssa.Lookup:
+			return x
+		case *ssa.Extract:
+			lk, _ := x.Tuple.(*ssa.Lookup)
+			return lk
+		}
+		return nil
+	}
+	// decisionOf: how a bool-valued call relates to "the deciding function accepts the matcher under
+	// test": +1 same, -1 negated, 0 unrelated. The call is the deciding function itself, or a predicate
+	// (method, closure) whose result is [the negation of] such a call.
+	var decisionOf func(c *ssa.Call, depth int) (pol int, dcall *ssa.Call)
+	decisionOf = func(c *ssa.Call, depth int) (int, *ssa.Call) {
+		if c == nil || depth > 3 {
+			return 0, nil
+		}
+		callee := staticCallee(c)
+		if callee == nil {
+			if f, _ := predicateOf(c.Call.Value); f != nil {
+				callee = f
+			}
+		}
+		if callee == nil {
+			return 0, nil
+		}
+		if callee == fn {
+			return 1, c
+		}
+		if callee.Blocks == nil || callee.Pkg != mf.Pkg && (callee.Parent() == nil || callee.Parent().Pkg != mf.Pkg) {
+			return 0, nil
+		}
+		pol, var0 := 0, (*ssa.Call)(nil)
+		for _, ret := range returnsOf(callee) {
+			if len(ret.Results) != 1 {
+				return 0, nil
+			}
+			v := ret.Results[0]
+			sign := 1
+			if u, ok := v.(*ssa.UnOp); ok && u.Op == token.NOT {
+				sign, v = -1, u.X
+			}
+			ic, ok := v.(*ssa.Call)
+			if !ok {
+				return 0, nil
+			}
+			ip, idc := decisionOf(ic, depth+1)
+			if ip == 0 || (pol != 0 && pol != ip*sign) {
+				return 0, nil
+			}
+			pol, var0 = ip*sign, idc
+		}
+		return pol, var0
+	}
+	checkDecisionArgs := func(dcall *ssa.Call) {
+		// the value: an argument looked up in the labels, or the lookup inside the deciding function
+		var lk *ssa.Lookup
+		for _, a := range dcall.Call.Args {
+			if isStringType(a.Type()) {
+				lk = lookupOf(a)
+			}
+		}
+		if lk == nil && innerLookup != nil {
+			lk = innerLookup
+		}
+		checkLookup(lk, dcall.Pos())
+	}
 	var loop *rangeLoop
 	for _, l := range rangeIndexLoops(mf) {
 		if l.X == ssa.Value(mf.Params[1]) {
@@ -264,7 +403,7 @@ func ruleDockerMatch(r *Run) {
 		}
 	}
 	if loop == nil {
-		// the library quantifier: !slices.ContainsFunc(matchers, rejects) with rejects(m) = !match(m, labels[m.Label])
+		// the library quantifier: !slices.ContainsFunc(matchers, rejects) with rejects(m) = !accepts(m)
 		ok := false
 		for _, ret := range returnsOf(mf) {
 			if len(ret.Results) != 1 {
@@ -281,46 +420,42 @@ func ruleDockerMatch(r *Run) {
 			if pk, nm := calleePkgName(cf); pk != "slices" || nm != "ContainsFunc" || len(cf.Call.Args) != 2 || unspill(cf.Call.Args[0]) != ssa.Value(mf.Params[1]) {
 				continue
 			}
-			// the predicate: a method value bound to this label set, or a closure
 			pred, bound := predicateOf(cf.Call.Args[1])
-			if pred == nil || len(pred.Params) == 0 {
+			if pred == nil {
 				continue
 			}
-			if bound != nil && !(unspill(bound) == ssa.Value(mf.Params[0]) || spillParam(bound) == ssa.Value(mf.Params[0])) {
+			if bound != nil && !recvIs(bound) {
 				om.Fail(r.pos(cf.Pos()), "the predicate is bound to %s, not to this label set", describe(bound, 0))
 				return
 			}
-			var mc *ssa.Call
-			for _, c := range callsIn(pred) {
-				if call, isC := c.(*ssa.Call); isC && callIs(call, dl, "match") {
-					mc = call
-				}
+			if bound != nil && len(pred.Params) > 0 {
+				recvAlias[pred.Params[0]] = true
 			}
-			if mc == nil {
-				continue
-			}
-			// rejects = !match(...) on every return
-			neg := true
+			// pred(m) must be the negation of the decision
+			pol, var0 := 0, (*ssa.Call)(nil)
+			consistent := true
 			for _, pr := range returnsOf(pred) {
-				u, isU := pr.Results[0].(*ssa.UnOp)
-				if !isU || u.Op != token.NOT || u.X != ssa.Value(mc) {
-					neg = false
+				v := pr.Results[0]
+				sign := 1
+				if u, isU := v.(*ssa.UnOp); isU && u.Op == token.NOT {
+					sign, v = -1, u.X
 				}
+				ic, isC := v.(*ssa.Call)
+				if !isC {
+					consistent = false
+					continue
+				}
+				ip, idc := decisionOf(ic, 0)
+				if ip == 0 || (pol != 0 && pol != ip*sign) {
+					consistent = false
+				}
+				pol, var0 = ip*sign, idc
 			}
-			if !neg {
+			if !consistent || pol != -1 || var0 == nil {
 				om.Fail(r.pos(pred.Pos()), "the predicate given to slices.ContainsFunc is not the negation of match")
 				return
 			}
-			mparam := pred.Params[len(pred.Params)-1]
-			if unspill(mc.Call.Args[0]) != ssa.Value(mparam) && spillParam(addrOfLoad(mc.Call.Args[0])) != ssa.Value(mparam) {
-				om.Fail(r.pos(mc.Pos()), "match is applied to %s, not to the matcher under test", describe(mc.Call.Args[0], 0))
-				return
-			}
-			recvP := ssa.Value(pred.Params[0])
-			if len(pred.FreeVars) > 0 && len(pred.Params) == 1 {
-				recvP = pred.FreeVars[0]
-			}
-			checkValueArg(mc, recvP)
+			checkDecisionArgs(var0)
 			ok = true
 		}
 		if !ok {
@@ -332,11 +467,15 @@ func ruleDockerMatch(r *Run) {
 		}
 		return
 	}
-	var matchCall *ssa.Call
+	// loop form: the call in the loop whose verdict decides
+	var matchCall, dcall *ssa.Call
+	pol := 0
 	for b := range loop.Blocks {
 		for _, in := range b.Instrs {
-			if c, ok := in.(*ssa.Call); ok && callIs(c, dl, "match") {
-				matchCall = c
+			if c, ok := in.(*ssa.Call); ok {
+				if pl, dc := decisionOf(c, 0); pl != 0 {
+					matchCall, dcall, pol = c, dc, pl
+				}
 			}
 		}
 	}
@@ -344,17 +483,21 @@ func ruleDockerMatch(r *Run) {
 		om.Fail(r.pos(mf.Pos()), "match is not called in the loop")
 		return
 	}
-	// value argument: lookup in c.labels by string(matcher.Label), not comma-ok gated
-	checkValueArg(matchCall, ssa.Value(mf.Params[0]))
+	checkDecisionArgs(dcall)
 	// the matcher argument is the ranged element
-	marg := unspill(matchCall.Call.Args[0])
-	if u, ok := marg.(*ssa.UnOp); !ok || !isIndexOf(u.X, loop) {
-		good = false
-		om.Fail(r.pos(matchCall.Pos()), "match is applied to %s, not to the ranged matcher", describe(marg, 0))
+	elemOK := false
+	for _, a := range matchCall.Call.Args {
+		if u, ok := unspill(a).(*ssa.UnOp); ok && isIndexOf(u.X, loop) {
+			elemOK = true
+		}
 	}
-	// early exits only on match == false, returning false; after the loop true
+	if !elemOK {
+		good = false
+		om.Fail(r.pos(matchCall.Pos()), "match is not applied to the ranged matcher")
+	}
+	// early exits only where the matcher was rejected, returning false; after the loop true
 	for _, ex := range loop.earlyExits() {
-		if !factHoldsOnEdge(ex[0], ex[1], matchCall, false) {
+		if !factHoldsOnEdge(ex[0], ex[1], matchCall, pol < 0) {
 			good = false
 			om.Fail(r.pos(termPos(ex[0])), "the matcher loop is left early on a path where the matcher accepted")
 		}
@@ -775,6 +918,17 @@ func ruleFetchContainers(r *Run) {
 			}
 		}
 	}
+	// the labels may be derived inside a constructor helper of the container value (newContainer(ctr)):
+	// resolve the label set Match is applied to through struct fields and helper results
+	var getLArg ssa.Value
+	if getL != nil {
+		getLArg = getL.Call.Args[0]
+	}
+	if getL == nil && matchC != nil {
+		if c, arg := structFieldOrigin(matchC.Call.Args[0], dl, "getLabels", nil, 0); c != nil {
+			getL, getLArg = c, arg
+		}
+	}
 	if matchC == nil || getL == nil || nAppend != 1 {
 		o.Fail(r.pos(fn.Pos()), "loop body: Match call=%v getLabels call=%v appends=%d", matchC != nil, getL != nil, nAppend)
 		return
@@ -797,7 +951,7 @@ func ruleFetchContainers(r *Run) {
 			}
 		}
 	}
-	if matchC.Call.Args[0] != ssa.Value(getL) {
+	if c, _ := structFieldOrigin(matchC.Call.Args[0], dl, "getLabels", nil, 0); matchC.Call.Args[0] != ssa.Value(getL) && c != getL {
 		good = false
 		o.Fail(r.pos(matchC.Pos()), "Match is applied to %s, not to the labels of the ranged container", describe(matchC.Call.Args[0], 0))
 	}
@@ -805,7 +959,7 @@ func ruleFetchContainers(r *Run) {
 		good = false
 		o.Fail(r.pos(matchC.Pos()), "Match is given %s, not params.Labels", describe(matchC.Call.Args[1], 0))
 	}
-	if u, ok := unspill(getL.Call.Args[0]).(*ssa.UnOp); !ok || !isIndexOf(u.X, loop) {
+	if u, ok := unspill(getLArg).(*ssa.UnOp); !ok || !isIndexOf(u.X, loop) {
 		good = false
 		o.Fail(r.pos(getL.Pos()), "getLabels is applied to %s, not the ranged container", describe(getL.Call.Args[0], 0))
 	}
@@ -1132,4 +1286,94 @@ func addrOfLoad(v ssa.Value) ssa.Value {
 		return u.X
 	}
 	return v
+}
+
+// structFieldOrigin resolves a value to the call of pkg.name it was computed by, looking through
+// single-store locals, fields of struct values and same-package constructor helpers that build such
+// structs (c := newContainer(ctr); c.labels -> labelsOf(ctr) inside newContainer, with the helper's
+// parameters replaced by the arguments). It returns that call and its first argument as seen by the caller.
+func structFieldOrigin(v ssa.Value, pkg, name string, subst map[ssa.Value]ssa.Value, depth int) (*ssa.Call, ssa.Value) {
+	if v == nil || depth > 4 {
+		return nil, nil
+	}
+	v = unspill(v)
+	if s, ok := subst[v]; ok {
+		return structFieldOrigin(s, pkg, name, nil, depth+1)
+	}
+	switch x := v.(type) {
+	case *ssa.Call:
+		if callIs(x, pkg, name) && len(x.Call.Args) > 0 {
+			arg := unspill(x.Call.Args[0])
+			if s, ok := subst[arg]; ok {
+				arg = s
+			}
+			return x, arg
+		}
+	case *ssa.Field:
+		return structFieldOfValue(x.X, x.Field, pkg, name, subst, depth)
+	case *ssa.UnOp:
+		if x.Op == token.MUL {
+			if fa, ok := x.X.(*ssa.FieldAddr); ok {
+				if al, ok := fa.X.(*ssa.Alloc); ok {
+					// a field written directly into the local struct
+					for _, st := range storesTo(fa) {
+						if c, a := structFieldOrigin(st.Val, pkg, name, subst, depth+1); c != nil {
+							return c, a
+						}
+					}
+					// or the whole struct assigned from somewhere
+					for _, st := range storesTo(al) {
+						if c, a := structFieldOfValue(st.Val, fa.Field, pkg, name, subst, depth); c != nil {
+							return c, a
+						}
+					}
+				}
+			}
+		}
+	}
+	return nil, nil
+}
+
+// structFieldOfValue: field #idx of a struct value that is the result of a same-package helper (or a
+// load of a composite literal).
+func structFieldOfValue(sv ssa.Value, idx int, pkg, name string, subst map[ssa.Value]ssa.Value, depth int) (*ssa.Call, ssa.Value) {
+	sv = unspill(sv)
+	switch y := sv.(type) {
+	case *ssa.UnOp:
+		if al, ok := y.X.(*ssa.Alloc); ok && y.Op == token.MUL {
+			for _, ref := range *al.Referrers() {
+				if fa, ok := ref.(*ssa.FieldAddr); ok && fa.Field == idx {
+					for _, st := range storesTo(fa) {
+						if c, a := structFieldOrigin(st.Val, pkg, name, subst, depth+1); c != nil {
+							return c, a
+						}
+					}
+				}
+			}
+		}
+	case *ssa.Call:
+		h := staticCallee(y)
+		if h == nil || h.Blocks == nil || y.Parent() == nil || h.Pkg != y.Parent().Pkg {
+			return nil, nil
+		}
+		ns := map[ssa.Value]ssa.Value{}
+		for i, prm := range h.Params {
+			if i < len(y.Call.Args) {
+				a := unspill(y.Call.Args[i])
+				if s, ok := subst[a]; ok {
+					a = s
+				}
+				ns[prm] = a
+			}
+		}
+		for _, ret := range returnsOf(h) {
+			if len(ret.Results) == 0 {
+				continue
+			}
+			if c, a := structFieldOfValue(ret.Results[0], idx, pkg, name, ns, depth+1); c != nil {
+				return c, a
+			}
+		}
+	}
+	return nil, nil
 }
